@@ -129,8 +129,10 @@ func randomWorld(seed int64, i int, n int, out *tr.W, rnd *rand.Rand, st *runSta
 			w.persist(step{K: "persist", N: pick(nodeKeys())})
 		case r < 55:
 			w.restart(step{K: "restart", N: pick(nodeKeys())})
-		case r < 63 && len(behind) > 0:
+		case r < 61 && len(behind) > 0:
 			w.deliver(step{K: "deliver", N: pick(behind)})
+		case r < 64 && len(behind) > 0:
+			w.crash(step{K: "crash", N: pick(behind), Ck: []string{"lost", "kept", "idx", "idx"}[rnd.Intn(4)], Ci: rnd.Intn(9)})
 		case r < 68:
 			w.probe(step{K: "probe", X: []interface{}{"pay", float64(10 + rnd.Intn(3))}})
 		default:
@@ -140,6 +142,10 @@ func randomWorld(seed int64, i int, n int, out *tr.W, rnd *rand.Rand, st *runSta
 				if rnd.Intn(3) == 0 {
 					s.F = 1
 				}
+			}
+			if len(behind) == 0 && len(w.chain) > 0 && rnd.Intn(12) == 0 {
+				// the block just built is orphaned
+				w.reorg(step{K: "reorg"})
 			}
 			if rnd.Intn(7) == 0 && len(w.synced()) > 1 {
 				syn := []int{}
